@@ -196,7 +196,7 @@ class Signals:
 
         def weakref_callback(weakref):  # pylint: disable=redefined-outer-name  # bad, but not changing API
             o = obj_weak()
-            if o:
+            if o is not None:
                 self.disconnect_by_key(o, name, key)
 
         user_args = self._prepare_user_args(weak_args, user_args, weakref_callback)
@@ -254,7 +254,7 @@ class Signals:
         user_args = self._prepare_user_args(weak_args, user_args)
 
         # Remove the given handler
-        for h in handlers:
+        for h in list(handlers):  # comparing may run foreign code (__eq__, weak reference callbacks)
             if h[1:] == (callback, user_arg, user_args):
                 return self.disconnect_by_key(obj, name, h[0])
         return None
